@@ -636,6 +636,19 @@ class Explorer:
                         except Exception:
                             return UNKNOWN
                     return UNKNOWN
+            if isinstance(e.func, ast.Attribute) and e.func.attr == "pop" and not e.keywords and 1 <= len(e.args) <= 2:
+                # `<dict>.pop(k[, default])` inside a larger expression: the value taken (the removal itself is applied only
+                # for the statement forms, see _apply); a missing key without default raises
+                recv = self.ev(e.func.value, env)
+                if isinstance(recv, dict):
+                    args = [self.ev(a, env) for a in e.args]
+                    if args[0] is UNKNOWN or not isinstance(args[0], (str, bytes, int, tuple)):
+                        return UNKNOWN
+                    if args[0] in recv:
+                        return recv[args[0]]
+                    if len(args) == 2:
+                        return args[1]
+                    raise EvalRaise("KeyError")
             if isinstance(e.func, ast.Attribute) and e.func.attr in PURE_METHODS and not e.keywords:
                 recv = self.ev(e.func.value, env)
                 args = [self.ev(a, env) for a in e.args]
@@ -660,6 +673,16 @@ class Explorer:
                     return UNKNOWN
                 except Exception:
                     return UNKNOWN
+            if isinstance(e.func, ast.Name) and e.func.id == "range" and e.func.id not in self.func.locals and 1 <= len(e.args) <= 3 and not e.keywords:
+                args = [self.ev(a, env) for a in e.args]
+                if all(isinstance(a, int) and not isinstance(a, bool) for a in args):
+                    try:
+                        r = range(*args)
+                        if len(r) <= 4096:
+                            return tuple(r)
+                    except Exception:
+                        pass
+                return UNKNOWN
             if isinstance(e.func, ast.Name) and e.func.id == "getattr" and len(e.args) in (2, 3) and not e.keywords:
                 # getattr(obj, "name"[, default]) with a known name is the attribute access `obj.name`
                 nm = self.ev(e.args[1], env)
